@@ -789,8 +789,23 @@ func c04ilCase(c *vf.Ctx, i int) {
 		mac := hmac.New(sha512.New, r.ChainCode[:])
 		mac.Write(data[:])
 		il := mac.Sum(nil)[:32]
-		if binary.BigEndian.Uint32(il[4*e.Pos:]) == e.Val {
-			c.Inc(fmt.Sprintf("derivations_with_IL_word_%08x", e.Val))
+		sum := new(big.Int).Add(new(big.Int).SetBytes(il), r.Priv)
+		key := new(big.Int).Mod(sum, ref.SecN)
+		word := func(x *big.Int) uint32 { // word Pos of the low 256 bits
+			b := c04pad32(new(big.Int).And(x, new(big.Int).Sub(new(big.Int).Lsh(big.NewInt(1), 256), big.NewInt(1))))
+			return binary.BigEndian.Uint32(b[4*e.Pos:])
+		}
+		ok := false
+		switch e.Kind {
+		case "IL":
+			ok = binary.BigEndian.Uint32(il[4*e.Pos:]) == e.Val
+		case "SUM": // a word of IL + k_par equals the same word of the group order n
+			ok = word(sum) == e.Val && word(ref.SecN) == e.Val
+		case "KEY": // a word of the child key is all zero / all one
+			ok = word(key) == e.Val
+		}
+		if ok {
+			c.Inc(fmt.Sprintf("derivations_with_%s_word_%08x", e.Kind, e.Val))
 		} else {
 			c.Inc("il_table_entry_not_confirmed")
 		}
@@ -894,7 +909,7 @@ func init() {
 			"stream leadzero: sibling search (HMAC only) for a child scalar with >=1 (7/8 of cases) or >=2 (1/8) leading zero bytes, which is then used for hardened and normal steps, serialisation and neutering; " +
 			"stream pathsdeep: chains to depth 255 (all-hardened, all-normal with a parallel public chain, boundary indices, mixed), then the depth-256 refusal on private and public keys; " +
 			"stream errors: seed lengths 0..15, 65..80 and random illegal lengths on every network; " +
-			"stream il-special-words: the 34 derivations (two master keys, all 2^32 indices scanned by cmd/ilscan) whose IL has an aligned 32-bit word 00000000 or ffffffff, then two more steps below them; " +
+			"stream il-special-words: the derivations (two master keys, all 2^32 indices scanned by cmd/ilscan) in which an aligned 32-bit word of IL is 00000000 or ffffffff, a word of IL + k_par equals the same word of n, or a word of the child key is 00000000 or ffffffff, then two more steps below them; " +
 			"stream trees: derivation trees (several children per parent, keys re-read from their own string, neutered copies) in which every node is compared again after later derivations and serialisations of other nodes. " +
 			"A case is non-trivial and distinct per (seed, network, path prefix).",
 		Assumptions: []string{
